@@ -19,7 +19,7 @@
    Tan record layer (Model/TanRecord.v): frame / replay, see below. *)
 From DB Require Import Base.Bytes Gen.GenC09 Gen.GenC10 Model.LogStoreSpec Model.KV Model.LogDBPlain
   Model.LogDBBatched Model.LogDBFaulty Model.TanRecord Proofs.LogDBPlain Proofs.LogDBFaulty
-  Proofs.LogDBFaultySpec Proofs.TanRecord Proofs.TanRecordMulti.
+  Proofs.LogDBFaultySpec Proofs.LogDBFaultyTrace Proofs.TanRecord Proofs.TanRecordMulti.
 Open Scope N_scope.
 
 (* ERROR PROPAGATION.  If any KV call (read or write) made by an operation of the current
@@ -92,17 +92,25 @@ Print Assumptions crash_atomic_kv.
 
 (* ONE BATCH PER SAVE.  Regenerated facts: db.saveRaftState contains exactly one
    CommitWriteBatch call, its helpers contain no other KV write call, commits are synced
-   (pebble.WriteOptions{Sync: true}).  Model: whatever the fault, the durable map after a
-   SaveRaftState is the old one or the old one with ONE write batch applied.
-   _partial: that the implementation's call trace of a save consists of reads followed by at
-   most one CommitWriteBatch whose contents are the model's batch is not a theorem; it is what
-   the differential run compares on every call of every case (the `| calls` column). *)
-Theorem save_is_one_batch_partial :
+   (pebble.WriteOptions{Sync: true}).  Model, at the level of the KV call trace (f_trace, newest
+   call first), for BOTH entry formats, EVERY variant of the error handling (f1, f2), every
+   state, every fault: the calls one SaveRaftState makes are read calls (GetValue /
+   IterateValue) followed by at most one write call, which is a CommitWriteBatch of a
+   non-empty batch w; the durable map afterwards is the old one, or the old one with exactly
+   w applied, and it is the latter whenever the save reports success.  So all puts and deletes
+   of one save are in one batch, there is no second write call that could be separated from it
+   by a crash.  (That the implementation makes the same calls with the same batch contents is the
+   differential tie: the `| calls` column compared on every operation of every case.) *)
+Theorem save_is_one_batch :
   (c10_save_raft_state_commit_calls = 1 /\ c10_save_path_other_write_calls = 0 /\ c10_commit_sync = true) /\
-  forall b d us r d', f_save_raft_state b (fl_save cur_flags) (fl_batch cur_flags) d us = (r, d') ->
-    d_kv d' = d_kv d \/ exists w, d_kv d' = kv_commit (d_kv d) w.
-Proof. exact save_is_one_batch_proved. Qed.
-Print Assumptions save_is_one_batch_partial.
+  forall b f1 f2 d us r d', f_save_raft_state b f1 f2 d us = (r, d') ->
+    exists rds, Forall (fun c => is_write c = false) rds /\
+      ((f_trace (d_st d') = rds ++ f_trace (d_st d) /\ d_kv d' = d_kv d) \/
+       (exists w, w <> [] /\ f_trace (d_st d') = CCommit w :: rds ++ f_trace (d_st d) /\
+                  (d_kv d' = d_kv d \/ d_kv d' = kv_commit (d_kv d) w) /\
+                  (r = FOk -> d_kv d' = kv_commit (d_kv d) w))).
+Proof. exact (conj (proj1 save_is_one_batch_proved) save_is_one_batch_trace). Qed.
+Print Assumptions save_is_one_batch.
 
 (* THE RECOVERED LOG (plain format, contract-abiding runs: wf_ops = what the raft core
    guarantees, Model/LogStoreSpec.v).  After any fault at any KV call the recovered store
@@ -171,6 +179,19 @@ Theorem tan_replay_torn_record : forall ck lognum, (forall b, ck b < 2 ^ 32) ->
             recoverable v = true.
 Proof. exact tan_replay_torn_record_proved. Qed.
 Print Assumptions tan_replay_torn_record.
+
+(* NOT every tail is recoverable: "whatever follows the complete records, replay stops with
+   a verdict open() recovers from" is refuted - a chunk-shaped tail whose checksum does not
+   match stops replay with VCrc (ErrCRCMismatch), which is not in tan's IsInvalidRecord, so
+   open() fails instead of cutting the log there.  The witness is replayed on the real reader
+   (corpus/C10/tan_crc_tail.txt: verdict crc on both sides).  Unreachable by pure truncation
+   (tan_replay_ignores_torn_tail); reachable only if unsynced pages reach the disk out of
+   order (header page written, payload page not). *)
+Theorem tan_garbage_tail_recoverable_refuted :
+  exists ck lognum rs g, (forall b, ck b < 2 ^ 32) /\
+    replay ck lognum (frame ck rs ++ g) = (rs, VCrc) /\ recoverable VCrc = false.
+Proof. exact tan_garbage_tail_recoverable_refuted_proved. Qed.
+Print Assumptions tan_garbage_tail_recoverable_refuted.
 
 (* TAN SAVE PATH, fsync and error rules (the shape of the code is regenerated into
    Gen/GenC10.v; these obligations stop checking when it changes, the black-box crash
